@@ -67,7 +67,7 @@ class SolverSuite:
     def monitors(self):
         raise NotImplementedError
 
-    def cases(self, rng, tier, run_seed):
+    def cases(self, rng, tier, run_seed, idx=0):
         yield self.gen_plan(rng, tier, run_seed)
 
     def check(self, plan):
@@ -256,7 +256,7 @@ class C04(SolverSuite):
         plan = G.base_plan(self.prop, run_seed, actors, ops, clock=G.gen_clock(rng))
         if "S1" in actors and rng.random() < 0.5:
             plan["nested"] = gen_nested(rng, plan, max_entries=2)
-        return plan
+        return maybe_fault(rng, plan)
 
     def nontrivial_key(self, plan, w):
         m = w.monitors[0]
@@ -290,7 +290,7 @@ class C05(SolverSuite):
                                refine_ops=rng.random() < 0.5)
         if rng.random() < 0.15:
             ops.append({"a": "S0", "op": "solve"})
-        return G.base_plan(self.prop, run_seed, {"S0": spec}, ops, clock=G.gen_clock(rng))
+        return transient_fault_then_continue(rng, G.base_plan(self.prop, run_seed, {"S0": spec}, ops, clock=G.gen_clock(rng)), prob=0.15)
 
     def nontrivial_key(self, plan, w):
         m = w.monitors[0]
@@ -325,7 +325,7 @@ class C06(SolverSuite):
         plan = G.base_plan(self.prop, run_seed, actors, ops, clock=G.gen_clock(rng))
         if "S1" in actors and rng.random() < 0.5:
             plan["nested"] = gen_nested(rng, plan, max_entries=2)
-        return plan
+        return maybe_fault(rng, plan)
 
     def nontrivial_key(self, plan, w):
         a = w.actors["S0"]
@@ -357,7 +357,7 @@ class C20(SolverSuite):
             spec["params"]["eps"] = G.EPS_MIN[spec["objective"]["N"]]
         pre = rng.choice([0, rng.randint(0, L)])
         ops = G.gen_single_ops(rng, "S0", pre, with_solve=True, results_prob=0.05)
-        return G.base_plan(self.prop, run_seed, {"S0": spec}, ops, clock=G.gen_clock(rng))
+        return transient_fault_then_continue(rng, G.base_plan(self.prop, run_seed, {"S0": spec}, ops, clock=G.gen_clock(rng)), prob=0.25, hi=L)
 
     def nontrivial_key(self, plan, w):
         a = w.actors["S0"]
@@ -365,6 +365,33 @@ class C20(SolverSuite):
         if m != 10 and len(a.global_calls()) >= 10:
             return core.short_hash((self.spec_key(plan), m))
         return None
+
+
+def transient_fault_then_continue(rng, plan, prob=0.25, hi=30):
+    """Fault configuration for the seam monitors (C05, C20): the objective raises once, the
+    caller catches the exception (or Solve contains it) and keeps driving the same solver."""
+    if rng.random() < prob:
+        plan["faults"] = [{"a": "S0", "at_eval": rng.choice([1, 1, 2, rng.randint(2, hi)]),
+                           "exc": rng.choice(["ValueError", "KeyboardInterrupt", "SimFault"]), "when": rng.choice(["before", "after"]),
+                           "persistent": False}]
+        plan["continue_after_fault"] = True
+        for _ in range(rng.randint(1, 3)):
+            plan["ops"].append({"a": "S0", "op": "iterate", "k": rng.randint(1, 12)})
+        if rng.random() < 0.6:
+            plan["ops"].append({"a": "S0", "op": "solve"})
+        if rng.random() < 0.3:
+            plan["ops"].append({"a": "S0", "op": "iterate", "k": rng.randint(1, 12)})
+    return plan
+
+
+def maybe_fault(rng, plan, prob=0.1):
+    """Separate fault-injecting configuration: an objective failure inside some evaluation of S0
+    (contained by Solve, propagated to the driver by DoGlobalIteration)."""
+    if rng.random() < prob:
+        plan["faults"] = [{"a": "S0", "at_eval": rng.randint(2, 30), "exc": rng.choice(["ValueError", "KeyboardInterrupt", "SimFault", "MemoryError"]),
+                           "when": rng.choice(["before", "after"]), "persistent": False}]
+        plan["actors"]["S0"]["params"]["refineSolution"] = False
+    return plan
 
 
 def gen_nested(rng, plan, max_entries=3, hosts=None):
